@@ -141,7 +141,9 @@ def rsqMech (l : List Pt) : V :=
 /-- square of the returned `error` (unweighted residual variance with n − 2 degrees of freedom) -/
 def err2 (l : List Pt) : Rat :=
   if l.length > 2 then
-    S (fun p => ((intercept l + p.x * gradient l) - p.y) ^ 2) l / ((l.length : Rat) - 2)
+    let g := gradient l     -- `coef[1]`, `coef[0]`: computed once
+    let c := intercept l
+    S (fun p => ((c + p.x * g) - p.y) ^ 2) l / ((l.length : Rat) - 2)
   else 0
 
 /-- attributes set by `update_linreg`; `rsq`/`err2` = `none` is Python `None`,
@@ -249,9 +251,9 @@ def run (o : Fit) : List Step → List (List V)
 
 def meanX(l : List Pt) : Rat := Swx l / Sw l
 def meanY (l : List Pt) : Rat := Swy l / Sw l
-def sxx (l : List Pt) : Rat := S (fun p => p.w * (p.x - meanX l) ^ 2) l
-def syy (l : List Pt) : Rat := S (fun p => p.w * (p.y - meanY l) ^ 2) l
-def sxy (l : List Pt) : Rat := S (fun p => p.w * (p.x - meanX l) * (p.y - meanY l)) l
+def sxx (l : List Pt) : Rat := let mx := meanX l; S (fun p => p.w * (p.x - mx) ^ 2) l
+def syy (l : List Pt) : Rat := let my := meanY l; S (fun p => p.w * (p.y - my) ^ 2) l
+def sxy (l : List Pt) : Rat := let mx := meanX l; let my := meanY l; S (fun p => p.w * (p.x - mx) * (p.y - my)) l
 
 /-- textbook weighted least squares: slope = weighted covariance / weighted variance,
 the line passes through the weighted centroid -/
